@@ -354,8 +354,12 @@ fn finish(prop: &Prop, tier: Tier, seed: u64, total: &Report, profiles: &[String
         std::fs::create_dir_all(&rdir).ok();
     }
     let mut n = 0;
+    let many = unknown.len() > 12;
     for sig in &unknown {
-        for v in total.viols.iter().filter(|v| &v.sig == sig).take(2) {
+        if n >= 24 {
+            break; // every signature is in the evidence; replay files for the first ones only
+        }
+        for v in total.viols.iter().filter(|v| &v.sig == sig).take(if many { 1 } else { 2 }) {
             n += 1;
             let path = format!("{}/{}_{}.json", rdir, tier.name(), n);
             let rec = json!({
